@@ -21,4 +21,6 @@ SFill(c, p, h, n) == CASE c = "w32" -> Sw32!Fill(p, h, n) [] c = "hi" -> Shi!Fil
                    [] c = "sm" -> Ssm!Fill(p, h, n) [] c = "half" -> Shalf!Fill(p, h, n)
                    [] c = "b32" -> Sb32!Fill(p, h, n) [] c = "b64" -> Sb64!Fill(p, h, n)
 
+(* the open corner of the "half" class (JitterRng, fill_bytes(1..4) with a half pending): the other admitted plan *)
+SFillFresh(p, n) == Shalf!FillFresh(p, n)
 =============================================================================
